@@ -1,13 +1,14 @@
 #!/usr/bin/env python3
 """C18 (real binary part): `--test` verdicts and start-up. For each configuration of a grid of mutants of a runnable
 base document: `--test x` must end with exit 0 or a clean error (never a signal / abort); a configuration it accepts
-must start, serve one request per listener, accept a rule POST naming every connector, and stay alive."""
+must start, serve one request per listener and one UDP association, accept a rule POST naming every connector, and stay alive."""
 import sys, json, copy
 sys.path.insert(0, '/verif/e4')
 from lib import *
 
 chk = Check('C18')
 origin = Origin('echo')
+uorigin = UdpOrigin()
 evals = 0
 distinct = set()
 samples = []
@@ -86,8 +87,15 @@ MUTANTS = [
     ('lb hashBy non-string', [(['connectors'], [{'name': 'direct'}, lb('a', ['direct'], algo={'hashBy': 'request.target.port'})]), (['rules', 0, 'target'], 'a')]),
     ('lb hashBy runtime error', [(['connectors'], [{'name': 'direct'}, lb('a', ['direct'], algo={'hashBy': 'to_string(1 / (request.target.port - request.target.port))'})]), (['rules', 0, 'target'], 'a')]),
 ]
-if tier() != 'thorough':
-    pass
+# every numeric field at its boundaries (negative / non-numeric values are above)
+BIG = [0, 1, 2**31, 2**32 + 1, 2**53, 2**63 - 1, 2**63, 2**64 - 1]
+for v in BIG:
+    MUTANTS.append((f'timeouts.idle = {v}', [(['timeouts'], {'idle': v, 'udp': 600})]))
+    MUTANTS.append((f'timeouts.udp = {v}', [(['timeouts'], {'idle': 600, 'udp': v})]))
+    if v not in (0,):
+        MUTANTS.append((f'metrics.historySize = {v}', [(['metrics', 'historySize'], v)]))
+    MUTANTS.append((f'ioParams.bufferSize = {v}', [(['ioParams'], {'bufferSize': v, 'useSplice': v % 2 == 0})]))
+    MUTANTS.append((f'socks auth cache timeout = {v}', [(['listeners', 1, 'auth'], {'required': False, 'users': [], 'cmd': ['/bin/true'], 'cache': {'timeout': v}})]))
 
 def probe(px, hp, sp):
     """one request per listener; returns list of outcomes"""
@@ -108,6 +116,24 @@ def probe(px, hp, sp):
         s.close()
     except OSError as e:
         out.append('socks:error')
+    # a UDP association with one datagram (timeouts.udp applies to it)
+    try:
+        s, r = socks5_connect(sp, '0.0.0.0', 0, cmd=3, timeout=4)
+        if r['rep'] == 0 and len(r['reply']) >= 10:
+            u = socket.socket(socket.AF_INET, socket.SOCK_DGRAM)
+            u.settimeout(1.5)
+            u.sendto(b'\0\0\0' + socks5_addr('127.0.0.1', uorigin.port) + b'ping', ('127.0.0.1', struct.unpack('>H', r['reply'][8:10])[0]))
+            try:
+                d, _ = u.recvfrom(2000)
+                out.append('udp:' + ('echo' if d.endswith(b'Rping') else 'other'))
+            except OSError:
+                out.append('udp:noreply')
+            u.close()
+        else:
+            out.append(f"udp:{r['rep']}")
+        s.close()
+    except OSError:
+        out.append('udp:error')
     return out
 
 def one(m):
@@ -165,10 +191,10 @@ for m, r in zip(MUTANTS, results):
     distinct.add((r.get('test_rc'), (r.get('outcome') or r.get('verdict', [''])[1]).split(':')[0]))
     if len(samples) < 4:
         samples.append({'mutation': m[0], 'test_rc': r.get('test_rc'), 'outcome': r.get('outcome')})
-origin.stop()
+origin.stop(); uorigin.stop()
 if evals < 30 or len(distinct) < 3:
     machinery(f'vacuous: evals={evals} distinct={distinct}')
 cov = {'evaluations': evals, 'distinct_nontrivial': len(distinct), 'transitions': evals, 'traces_validated_against_impl': evals,
-       'rule': 'real binary: grid of configuration mutants (start-up-only fields, TLS files, balancer graphs, rule filters); `--test x` exit status, then start-up, one request per listener, a rule POST naming every connector, one GC pass; the process must stay alive',
+       'rule': 'real binary: grid of configuration mutants (start-up-only fields, TLS files, balancer graphs, rule filters, every numeric field at 0, 1, 2^31, 2^32+1, 2^53, 2^63-1, 2^63, 2^64-1); `--test x` exit status, then start-up, one request per listener and one UDP association, a rule POST naming every connector, one GC pass; the process must stay alive',
        'mutants': len(MUTANTS), 'schedule_control': 'kernel', 'samples': samples}
 sys.exit(chk.finish('model_checking', cov, ['E4 part: `--test` needs a dummy value (`--test x`) because the clap argument has no flag action']))
